@@ -8,6 +8,7 @@ import re
 import subprocess
 import sys
 import tempfile
+import time
 
 from .. import load
 from ..ctx import HarnessError
@@ -388,7 +389,14 @@ def _cli_dir(ctx, case, nc):
             text = M.render_text(M.gen_text(rng, opts, rng.randint(3, 10))) + "username u%s password Pw%dx%s\n" % (n[0], rng.getrandbits(30), n[0])
             with open(os.path.join(d, "in", n), "w", encoding="utf-8", newline="") as f:
                 f.write(text)
+        import gzip
+
+        with gzip.open(os.path.join(d, "in", "zz-archived.cfg.gz"), "wb") as f:
+            f.write(b"hostname old\nenable password OldSecret9\n ip address 10.9.8.7 255.255.255.0\n")
+        names = names + ["zz-archived.cfg.gz"]  # whatever is done with it, it is done the same way every time
         for k, hs in enumerate(case["hashseeds"]):
+            if k:
+                time.sleep(0.4)  # the runs do not all fall into one clock second
             if k % 2:
                 # an earlier run left its (longer) files in the output directory
                 os.makedirs(os.path.join(d, "o%d" % k, "sub"))
